@@ -359,8 +359,12 @@ inline OrangeInput build_array(int nx, int ny, int nz, int mode)
                 d.universe_id = UniverseId(u_child + kind);
                 if (kind == 2)
                 {
-                    // fills everything: origin irrelevant; exercises both zero forms
-                    if ((i + j + k) % 2 == 0)
+                    // fills everything: origin irrelevant; exercises both zero forms and
+                    // translations that are tiny but NOT zero (must stay Translations)
+                    if (i + j + k == 3)
+                        d.transform = Translation{{i == 0 ? 1e-12 : 0.0, j == 2 ? -5e-324 : 0.0,
+                                                   k == 0 ? 1e-300 : -0.0}};
+                    else if ((i + j + k) % 2 == 0)
                         d.transform = Translation{{0, 0, 0}};
                     else
                         d.transform = NoTransformation{};
@@ -441,16 +445,37 @@ inline BBox bbox_of_kind(int k)
         case 0: return BBox::from_infinite();
         case 1: return BBox{{-1.0 / 3, -0.1, -2.5}, {0.7, 1e-7, 123456.789}};
         case 2: return BBox{{-inf, -0.1, -inf}, {0.7, inf, 2.0}};
+        // half spaces: an all-infinite lower (upper) corner with one finite coordinate on the other
+        // side; a writer that compares only one corner with from_infinite() drops these
+        case 4: return BBox{{-inf, -inf, -inf}, {inf, inf, 2.0}};
+        case 5: return BBox{{0.0, -inf, -inf}, {inf, inf, inf}};
         default: return BBox{};
     }
 }
 
-inline OrangeInput build_lattice(int zo_i, int bbkind)
+constexpr int num_bbox_kinds = 6;  // bbox_of_kind: 0 infinite, 1 finite, 2 mixed, 3 null, 4/5 half spaces
+
+//! Unit-level bounding box kinds: finite, unbounded along one axis (slab / infinite cylinder
+//! universe), half space, infinite (the writer omits it, absent reads back as infinite)
+constexpr int num_unit_bbox_kinds = 4;
+inline BBox unit_bbox_of_kind(int k)
+{
+    constexpr double inf = std::numeric_limits<double>::infinity();
+    switch (k)
+    {
+        case 0: return BBox{{-100, -1, -1}, {100, 1, 1}};
+        case 1: return BBox{{-inf, -1, -1}, {inf, 1, 1}};
+        case 2: return BBox{{-inf, -inf, -inf}, {inf, 0.5, inf}};
+        default: return BBox::from_infinite();
+    }
+}
+
+inline OrangeInput build_lattice(int zo_i, int bbkind, int unit_bbkind = 0)
 {
     constexpr int nsurf = 130;
     UnitInput u;
     u.label = Label{"lat", "uext"};
-    u.bbox = BBox{{-100, -1, -1}, {100, 1, 1}};
+    u.bbox = unit_bbox_of_kind(unit_bbkind);
     auto const labels = label_alphabet();
     for (int i = 0; i < nsurf; ++i)
     {
@@ -500,6 +525,42 @@ inline OrangeInput build_lattice(int zo_i, int bbkind)
     for (int kind = 0; kind < 3; ++kind)
         in.universes.push_back(child_unit(kind, 1.0));
     in.tol = Tolerance<>::from_relative(1e-7, 2.0);
+    return in;
+}
+
+//! A VolumeInput that is valid by VolumeInput::operator bool only through its implicit_vol flag:
+//! EMPTY logic (the writer has a branch for it: "logic" is omitted).  One such volume per unit,
+//! next to ordinary ones, so that nothing else in the unit is unusual.
+inline OrangeInput build_empty_logic(int zo_i, unsigned extra_flags)
+{
+    UnitInput u;
+    u.label = Label{"emptylogic"};
+    u.bbox = BBox{{-1, -1, -1}, {1, 1, 1}};
+    u.surfaces.push_back(PlaneX(0.25));
+    u.surface_labels.push_back(Label{"mid"});
+    u.volumes.push_back(nowhere_exterior());
+    {
+        VolumeInput v;
+        v.label = Label{"implicit", "nologic"};
+        v.faces = ids({0});
+        v.logic = {};
+        v.flags = VolumeRecord::implicit_vol | extra_flags;
+        v.zorder = zorder_alphabet[zo_i];
+        v.bbox = BBox{{-1, -1, -1}, {0.25, 1, 1}};
+        u.volumes.push_back(v);
+    }
+    {
+        VolumeInput v;
+        v.label = Label{"right"};
+        v.faces = ids({0});
+        v.logic = parse_logic("0");
+        v.zorder = ZOrder::media;
+        v.bbox = BBox::from_infinite();
+        u.volumes.push_back(v);
+    }
+    OrangeInput in;
+    in.universes.push_back(std::move(u));
+    in.tol = Tolerance<>::from_default();
     return in;
 }
 
@@ -619,13 +680,24 @@ inline OrangeInput build_extreme()
     RectArrayInput arr;
     arr.label = Label{"xarr"};
     arr.grid[0] = {-1e300, -5e-324, 0.0, 5e-324, 1e-300, 1.0 / 3, 1e300};
-    arr.grid[1] = {-0.0, 0.1 + 0.2};
+    arr.grid[1] = {-0.0, 0.1 + 0.2, 2.0 / 3};
     arr.grid[2] = {2.2250738585072011e-308, 2.2250738585072014e-308};
     for (int i = 0; i < 6; ++i)
         arr.daughters.push_back(
             {UniverseId{2}, Translation{{A[i], -A[i + 6], A[i + 12]}}});
     // a "negative zero" translation: equal to zero, read back as NoTransformation
     arr.daughters[3].transform = Translation{{-0.0, 0.0, -0.0}};
+    // tiny but non-zero translations, all components tiny / one component tiny / denormal: the
+    // reader's "zero translation -> NoTransformation" rule is an exact comparison, so every one
+    // of these must come back as a Translation with identical bits
+    std::vector<Real3> const tiny = {{5e-324, -0.0, 1e-300},
+                                     {0, 0, 1e-12},
+                                     {1e-9, 0, 0},
+                                     {0, -5e-324, 0},
+                                     {-0.0, 0.0, 2.2250738585072014e-308},
+                                     {1e-16, -1e-16, 1e-16}};
+    for (Real3 const& t : tiny)
+        arr.daughters.push_back({UniverseId{2}, Translation{t}});
     in.universes.push_back(std::move(arr));
     in.universes.push_back(child_unit(2, 1.0));
 
@@ -651,6 +723,7 @@ inline void add_row_programs(std::vector<Program>& out, bool)
                     Program p;
                     p.id = fmt("row:variant=%d,bbox=%d,tol=%d,inv=%d", v, b, t, inv);
                     p.extra_tags = {fmt("row:variant=%d", v)};
+                    p.file_entry = (inv == 0);
                     p.make = [=] { return hw::build_row(v, b, t, inv != 0); };
                     out.push_back(std::move(p));
                 }
@@ -666,6 +739,7 @@ inline void add_array_programs(std::vector<Program>& out, bool)
                     Program p;
                     p.id = fmt("arr:mode=%d,n=%dx%dx%d", mode, nx, ny, nz);
                     p.extra_tags = {fmt("arr:mode=%d", mode)};
+                    p.file_entry = true;
                     p.make = [=] { return hw::build_array(nx, ny, nz, mode); };
                     out.push_back(std::move(p));
                 }
@@ -674,12 +748,37 @@ inline void add_array_programs(std::vector<Program>& out, bool)
 inline void add_lattice_programs(std::vector<Program>& out, bool)
 {
     for (int z = 0; z < 6; ++z)
-        for (int b = 0; b < 4; ++b)
+        for (int b = 0; b < hw::num_bbox_kinds; ++b)
         {
             Program p;
             p.id = fmt("lat:zorder=%d,bbox=%d", z, b);
             p.navigate = false;
             p.make = [=] { return hw::build_lattice(z, b); };
+            out.push_back(std::move(p));
+        }
+    // unit-level bbox kind axis (kind 0 = finite is the one used above): x every volume bbox kind
+    // at z-order M, x every z-order at volume bbox kind 1
+    for (int ub = 1; ub < hw::num_unit_bbox_kinds; ++ub)
+        for (int z = 0; z < 6; ++z)
+            for (int b = 0; b < hw::num_bbox_kinds; ++b)
+            {
+                if (z != 1 && b != 1)
+                    continue;
+                Program p;
+                p.id = fmt("lat:zorder=%d,bbox=%d,unitbbox=%d", z, b, ub);
+                p.navigate = false;
+                p.make = [=] { return hw::build_lattice(z, b, ub); };
+                out.push_back(std::move(p));
+            }
+    // empty logic + implicit_vol (z-orders M, x, B x extra flags)
+    for (int z : {1, 4, 0})
+        for (unsigned fl : {0u, unsigned(VolumeRecord::simple_safety)})
+        {
+            Program p;
+            p.id = fmt("lat:empty-logic,zorder=%d,flags=%u", z, unsigned(VolumeRecord::implicit_vol | fl));
+            p.navigate = false;
+            p.extra_tags = {"lat:empty-logic-implicit-volume"};
+            p.make = [=] { return hw::build_empty_logic(z, fl); };
             out.push_back(std::move(p));
         }
 }
